@@ -31,8 +31,12 @@ TRUSTED_BASE = [
 ASSUMPTIONS = [
     'interface, member names and object paths are valid DBus names and signatures are lists of complete types '
     '(then no generated attribute value needs XML escaping: theorem generated_attribute_values_need_no_escaping)',
-    'interfaces exported by one object have pairwise distinct names, none of them a name of the standard '
-    'interfaces generateIntrospectionXML appends (it appends its own block even when the object declares e.g. '
+    'an interface name declared twice on ONE object (a subclass re-declaring its base\'s interface): the object '
+    'serves the first definition in getInterfaces() order (dispatch takes the first interface of that name), so the '
+    'first interface of that name that comes back must hold that first definition, and the proxy is judged '
+    'against it; which of the same-named blocks the cache keeps afterwards, and calls to methods only a shadowed '
+    'definition has, are not judged (theorems 2-4 assume distinct names, handler_gen covers the fold)',
+    'no declared interface carries the name of a standard interface generateIntrospectionXML appends (it appends its own block even when the object declares e.g. '
     'org.freedesktop.DBus.ObjectManager itself: the declared definition still comes back first, but a replacing '
     'parse leaves the poorer standard definition in the cache - pinned by std_name_collision_witness, covered by '
     'handler_gen and by the correspondence streams, not judged by the oracle)',
@@ -269,12 +273,29 @@ def gen_doc(rng, malformed=False):
         n = gen_iface_name(rng)
         if n not in names and n not in STD_NAMES and n != PROPS_DEF['name']:
             names.append(n)
-    dup = (not malformed) and nif >= 1 and rng.random() < 0.04
+    dup = False
     ifs = [gen_ifdef(rng, n, malformed) for n in names]
-    if dup:
-        # two interfaces of one object with the same name, or the name of a standard interface:
-        # correspondence only (outside the assumptions of the statement)
-        ifs.append(gen_ifdef(rng, rng.choice(names + STD_NAMES)))
+    if (not malformed) and nif >= 1 and rng.random() < 0.08:
+        if rng.random() < 0.65:
+            # the same name declared twice on ONE object (a subclass re-declaring its base's interface: the
+            # subclass' definition comes first in getInterfaces() and is the one the object serves)
+            dup = 'user'
+            k = rng.randrange(len(ifs))
+            first = ifs[k]
+            if rng.random() < 0.6:
+                # the base's revision: a prefix of the subclass' history, possibly with other access modes
+                base_ops = [list(o) for o in first['ops'][:rng.randint(0, max(0, len(first['ops']) - 1))]]
+                for o in base_ops:
+                    if o[0] == 'p' and rng.random() < 0.5:
+                        o[3], o[4] = rng.choice([0, 1]), rng.choice([0, 1])
+                second = {'name': first['name'], 'ops': base_ops}
+            else:
+                second = gen_ifdef(rng, first['name'])
+            ifs.insert(rng.randint(k + 1, len(ifs)), second)
+        else:
+            # the name of a standard interface: correspondence only (see ASSUMPTIONS)
+            dup = 'std'
+            ifs.append(gen_ifdef(rng, rng.choice(STD_NAMES)))
     objkind = rng.choice(['stub', 'stub', 'dbusobject'])
     path = rng.choice(['/', '/a', '/a/b', '/org/x_1/Y', '/a/b/c/d'])
     objs = [[path, ifs]]
@@ -301,7 +322,7 @@ def gen_doc(rng, malformed=False):
         for n in rng.sample(cands, min(len(cands), rng.choice([1, 1, 2, 3]))):
             if rng.random() < 0.3 and n in names:
                 # the cached definition equals the exported one
-                known.append({'name': n, 'ops': [list(o) for o in ifs[names.index(n)]['ops']]})
+                known.append({'name': n, 'ops': [list(o) for o in [d for d in ifs if d['name'] == n][0]['ops']]})
             else:
                 known.append(gen_ifdef(rng, n))
     opath = path
@@ -339,8 +360,15 @@ def gen_doc(rng, malformed=False):
             queries.append([rng.choice([None, 'org.freedesktop.DBus.Peer', 'no.such']),
                             rng.choice(['Ping', 'Introspect', 'GetManagedObjects', 'Nope', 'GetAll']),
                             rng.choice([0, 0, 1])])
-    return {'kind': 'doc', 'replace': rng.choice([0, 1]), 'path': path, 'known': known, 'objs': objs,
-            'objkind': objkind, 'queries': queries, 'dup': bool(dup), 'malformed': bool(malformed)}
+    case = {'kind': 'doc', 'replace': rng.choice([0, 1]), 'path': path, 'known': known, 'objs': objs,
+            'objkind': objkind, 'queries': queries, 'dup': dup, 'malformed': bool(malformed)}
+    if known and not malformed and not case['replace'] and rng.random() < 0.35:
+        # three-step history: known locally; a malformed / truncated document naming known interfaces is parsed
+        # (default mode) and raises; then the well-formed document is parsed without replacement
+        kn = sorted({d['name'] for d in known})
+        case['prelude'] = {'names': rng.sample(kn, rng.randint(1, len(kn))),
+                           'kind': rng.choice(['truncated', 'truncated', 'mismatched', 'garbage', 'ampersand'])}
+    return case
 
 
 # ------------------------------------------------------------------------------------------------ encoding
@@ -585,6 +613,26 @@ def with_clean_cache(f):
         I.DBusInterface.knownInterfaces.update(saved)
 
 
+def prelude_text(pre):
+    """a document that names locally known interfaces and cannot be parsed to the end"""
+    l = ['<node name="/x">']
+    for n in pre['names']:
+        l.append('  <interface name="%s">' % n)
+        l.append('    <method name="Broken">')
+        l.append('      <arg direction="in" type="i"/>')
+        if pre['kind'] == 'mismatched' and n == pre['names'][-1]:
+            l.append('    </signal>')
+        elif pre['kind'] == 'garbage' and n == pre['names'][-1]:
+            l.append('    <<< ]]>')
+        elif pre['kind'] == 'ampersand' and n == pre['names'][-1]:
+            l.append('      <arg direction="in" type="a&b"/>')
+        elif n != pre['names'][-1]:
+            l.append('    </method>')
+            l.append('  </interface>')
+    # 'truncated': the document simply ends here
+    return '\n'.join(l)
+
+
 def observe_doc(case):
     """returns dict: events, result, calls (strings as the driver prints them) + raw objects for the oracle"""
     from txdbus import interface as I, introspection as X
@@ -614,6 +662,12 @@ def observe_doc(case):
         obs['known_objs'] = known_objs
         obs['known_before'] = [show_iface(k) for k in known_objs]
         obs['declared'] = declared
+        if case.get('prelude'):
+            try:
+                X.getInterfacesFromXML(prelude_text(case['prelude']))
+                obs['prelude'] = 'no-exception'
+            except Exception as e:      # noqa - this is the point of the step
+                obs['prelude'] = 'raised:' + type(e).__name__
         try:
             text = X.generateIntrospectionXML(case['path'], exported)
         except Exception as e:      # noqa
@@ -735,11 +789,21 @@ def definition_mismatches(spec, r):
 def judge_doc(ctx, case, obs):
     """the property statement on the implementation alone (only for cases inside its assumptions).
     The reference is the generator's description of the declaration; interfaces are matched by name."""
-    if case.get('malformed') or case.get('dup'):
+    if case.get('malformed') or case.get('dup') in (True, 'std'):
         return
     specs = declared_spec(case)
     if specs is None or 'known_objs' not in obs:
         return
+    # a name declared more than once on this object: the object serves the FIRST definition (dispatch takes the
+    # first interface of that name in getInterfaces() order), so that one is what must come back under the name
+    all_specs = specs
+    repeated = {sp['name'] for sp in specs if sum(1 for q in specs if q['name'] == sp['name']) > 1}
+    firsts, seen = [], set()
+    for sp in specs:
+        if sp['name'] not in seen:
+            seen.add(sp['name'])
+            firsts.append(sp)
+    specs = firsts
     inp = case
     if 'text' not in obs:
         ctx.violation('roundtrip-raises', 'generating the XML of a valid interface definition raises or yields nothing',
@@ -755,7 +819,7 @@ def judge_doc(ctx, case, obs):
         known_names[d['name']] = j          # a later entry of the same name overwrote the earlier one
     # the declaring side: the exporter's own objects must hold what was declared (argument counting of addMethod /
     # addSignal, access decoding of Property) - judged against the generator's description
-    for spec, d in zip(specs, obs['declared'] or []):
+    for spec, d in zip(all_specs, obs['declared'] or []):
         if d.name == spec['name']:
             for key, what, o, e in definition_mismatches(spec, d):
                 ctx.violation('declared-' + key, 'the declared DBusInterface object differs from the declaration: '
@@ -788,6 +852,8 @@ def judge_doc(ctx, case, obs):
     if 'recovered2' in obs:
         rec2 = obs['recovered2']
         for spec in specs:
+            if spec['name'] in repeated:
+                continue    # which of several same-named blocks the cache keeps is not judged (see ASSUMPTIONS)
             found = [r for r in rec2 if r.name == spec['name']]
             if not found:
                 ctx.violation('interface-missing', 'no interface of the declared name comes back (second parse of '
@@ -810,7 +876,7 @@ def judge_doc(ctx, case, obs):
     if not stale and not std_known:
         got = obs['calls'].split(',')[1:]
         for (f, m, n), g in zip(case['queries'], got):
-            want = expected_calls(specs, f, m, n)
+            want = expected_calls(all_specs, f, m, n)
             if want is not None and g not in want:
                 ctx.violation('proxy-accepts-differently', 'a proxy built from the XML accepts/rejects a call '
                               'differently from the declaration', inp, observed=[f, m, n, g], expected=sorted(want))
@@ -821,7 +887,14 @@ def expected_calls(specs, f, m, n):
     `interface=` keyword when given) that has the method decides; when several have it and no keyword selects
     one, any of them may (the order of lookup is not part of the statement).  A method no declared interface
     has is unknown - unless a standard interface names it (then not judged: None)."""
-    cands = [sp for sp in specs if (not f or f == sp['name']) and m in sp['m']]
+    firsts, seen = [], set()
+    for sp in specs:
+        if sp['name'] not in seen:
+            seen.add(sp['name'])
+            firsts.append(sp)
+    cands = [sp for sp in firsts if (not f or f == sp['name']) and m in sp['m']]
+    if any((not f or f == sp['name']) and m in sp['m'] for sp in specs if not any(sp is q for q in firsts)):
+        return None     # a later, shadowed definition of a repeated name has it too: who answers is not judged
     if not f and m in STD_METHOD_NAMES:
         return None     # a standard interface has a method of this name too: which one answers is a matter of order
     if cands:
@@ -1020,6 +1093,10 @@ def doc_stats(ctx, case):
                         ctx.stat('history ends: read XML, %s, no later mutator' % k)
         elif ifs:
             ctx.stat('another exported object carries interfaces')
+    if case.get('dup'):
+        ctx.stat('same interface name twice on the object: %s' % case['dup'])
+    if case.get('prelude'):
+        ctx.stat('failed-parse prelude naming known interfaces: ' + case['prelude']['kind'])
     if case['path'] != '/' and case['path'].endswith('/'):
         ctx.stat('query path with trailing slash')
     ctx.stat('replace=%d known=%d' % (case['replace'], len(case['known'])))
@@ -1044,6 +1121,8 @@ def run_docs(ctx, cases, malformed=False):
     for c, m in zip(cases, out or [None] * len(cases)):
         obs = observe_doc(c)
         ctx.impl_trace()
+        if obs.get('prelude'):
+            ctx.stat('prelude outcome ' + obs['prelude'])
         if malformed:
             ctx.case('malformed-defs', sample=c, nontrivial=True)
             ctx.stat('malformed-outcome=' + obs['line'].split(' ')[0 if not obs['line'].startswith('err') else 1][:14])
